@@ -29,7 +29,8 @@ META = {
               "larger than a window (padded windows), named and anonymous, seeded add orders, one level of nesting",
     "outside": "inside the alignment padding of a window (addresses the window's own bus cannot express) only "
                "'no OTHER subordinate is strobed' is asserted; ratio != 1 windows (csr.Decoder refuses them)",
-    "assumptions": ["read-data clause: with every subordinate except k presenting zero, bus.r_data == sub_k.r_data"],
+    "assumptions": ["read-data clause: subordinates keep r_data at zero unless they were read in the previous cycle "
+                    "(CSR bus contract); then bus.r_data is the data of the subordinate read in the previous cycle"],
 }
 
 
@@ -132,21 +133,24 @@ def queries(h, cfg):
         return [], z3.Or(*bad) if bad else z3.BoolVal(False)
 
     def rdata(h, fr):
-        f = fr[0]
+        """Subordinates obey the CSR bus contract (r_data is zero unless the subordinate was read in the previous
+        cycle); then the upstream read data is that of the subordinate read in the previous cycle, zero if none.
+        (Stated over two frames so that it holds for an OR-composition and for a registered-select multiplexer.)"""
+        f0, f1 = fr
         bus = h.dec.bus
+        assume = [z3.Implies(f0.sig(s_.r_stb) == 0, f1.sig(s_.r_data) == 0) for s_ in h.subs]   # (a refused bus is not a subordinate: its r_data is arbitrary)
         if not h.subs:
-            return [], f.sig(bus.r_data) != 0
+            return assume, f1.sig(bus.r_data) != 0
         bad = []
-        for k, sub in enumerate(h.subs):
-            others_zero = z3.And(*[f.sig(o.r_data) == 0 for j, o in enumerate(h.subs) if j != k]) \
-                if len(h.subs) > 1 else z3.BoolVal(True)
-            bad.append(z3.And(others_zero, f.sig(bus.r_data) != f.sig(sub.r_data)))
-        return [], z3.Or(*bad)
+        for sub in h.subs:
+            bad.append(z3.And(is1(f0.sig(sub.r_stb)), f1.sig(bus.r_data) != f1.sig(sub.r_data)))
+        bad.append(z3.And(z3.And(*[f0.sig(s_.r_stb) == 0 for s_ in h.subs]), f1.sig(bus.r_data) != 0))
+        return assume, z3.Or(*bad)
 
     def twin(h, fr):
         f = fr[0]
         return [], z3.Or(*[is1(f.sig(s.w_stb)) for s in h.subs]) if h.subs else z3.BoolVal(True)
-    return [Q("routing-exact", 1, routing, twin=twin), Q("read-data-of-addressed-sub", 1, rdata)]
+    return [Q("routing-exact", 1, routing, twin=twin), Q("read-data-of-addressed-sub", 2, rdata)]
 
 
 # ---------------------------------------------------------------------------------------------------
